@@ -334,6 +334,30 @@ def run_c16(tier, out):
                                   msg + ' (same credentials had just been granted the operations allowed to %s)' % caller))
                     before = after
         app.close()
+    # --- the project a reader is authorised for is the project whose usages it gets: project_id given twice, in both orders
+    app = impl.App()
+    surface.setup_state(app)
+    adm = {'x-roles': 'admin,service'}
+    for k, (proj, amount) in enumerate((('p1', 1), ('p2', 3))):
+        body = {'allocations': {surface.RP_B: {'resources': {'MEMORY_MB': amount}}}, 'project_id': proj, 'user_id': 'u1',
+                'consumer_generation': None, 'consumer_type': 'TYPE1'}
+        app.request('PUT', '/allocations/%s' % ops.uuid_of(60 + k, ops.K_CONS), body=body, version='1.39', headers=adm)
+    own = app.request('GET', '/usages?project_id=p1', version='1.39', headers=adm).json
+    other = app.request('GET', '/usages?project_id=p2', version='1.39', headers=adm).json
+    if own != other and own and other:
+        for order in (('p1', 'p2'), ('p2', 'p1')):
+            for ver in (9, 37, 38, 39):
+                r = app.request('GET', '/usages?project_id=%s&project_id=%s' % order, version='1.%d' % ver,
+                                headers={'x-roles': 'reader'}, token='u1:p1')
+                stats['n'] += 1
+                stats['distinct'].add(('default', '/usages', 'GET', 'reader-own-project, project_id=%s&project_id=%s' % order, r.status))
+                if r.status == 200 and r.json == app.request('GET', '/usages?project_id=p2', version='1.%d' % ver, headers=adm).json \
+                        and r.json != app.request('GET', '/usages?project_id=p1', version='1.%d' % ver, headers=adm).json:
+                    viols.append(({'kind': 'authz', 'policy': 'default', 'route': '/usages', 'method': 'GET', 'caller': 'reader-own-project',
+                                   'version': ver, 'observed': 200, 'query': 'project_id=%s&project_id=%s' % order},
+                                  'a reader of project p1 asking GET /usages?project_id=%s&project_id=%s at 1.%d is answered 200 with the '
+                                  'usages of project p2' % (order[0], order[1], ver)))
+    app.close()
     # --- single-rule overrides: the rule of an operation is what grants / denies exactly that operation
     rules = {}
     if routes_json:
